@@ -1,0 +1,60 @@
+//go:build verif
+// +build verif
+
+// Contracts for deductive verification (govc, /verif). Comment-only file.
+
+package txhash
+
+// The id (and, without the signatures, the signed digest) of a version 1 / 2 transaction is
+// the hash of a stream of JSON items. Which field goes into the stream at which place is
+// fixed here item by item, in order: the stream IS the format, so a field that is dropped,
+// replaced by another or moved changes every id - or, worse, leaves ids unchanged while a
+// field stops being covered (C08: altering a transaction changes its id; C07: the digest
+// covers every semantic field).
+//@ func encodeTxData
+//@   property C08 C07
+//@   local txInput *protos.TxInput
+//@   local txInputExt *protos.TxInputExt
+//@   local txOutputExt *protos.TxOutputExt
+//@   at Encoder.Encode#1 assert item_1_is_txInput_RefTxid: $0 == boxed(txInput.RefTxid)
+//@   at Encoder.Encode#2 assert item_2_is_txInput_RefOffset: $0 == boxed(txInput.RefOffset)
+//@   at Encoder.Encode#3 assert item_3_is_txInput_FromAddr: $0 == boxed(txInput.FromAddr)
+//@   at Encoder.Encode#4 assert item_4_is_txInput_Amount: $0 == boxed(txInput.Amount)
+//@   at Encoder.Encode#5 assert item_5_is_txInput_FrozenHeight: $0 == boxed(txInput.FrozenHeight)
+//@   at Encoder.Encode#6 assert item_6_is_tx_TxOutputs: $0 == boxed(tx.TxOutputs)
+//@   at Encoder.Encode#7 assert item_7_is_tx_Desc: $0 == boxed(tx.Desc)
+//@   at Encoder.Encode#8 assert item_8_is_tx_Nonce: $0 == boxed(tx.Nonce)
+//@   at Encoder.Encode#9 assert item_9_is_tx_Timestamp: $0 == boxed(tx.Timestamp)
+//@   at Encoder.Encode#10 assert item_10_is_tx_Version: $0 == boxed(tx.Version)
+//@   at Encoder.Encode#11 assert item_11_is_txInputExt_Bucket: $0 == boxed(txInputExt.Bucket)
+//@   at Encoder.Encode#12 assert item_12_is_txInputExt_Key: $0 == boxed(txInputExt.Key)
+//@   at Encoder.Encode#13 assert item_13_is_txInputExt_RefTxid: $0 == boxed(txInputExt.RefTxid)
+//@   at Encoder.Encode#14 assert item_14_is_txInputExt_RefOffset: $0 == boxed(txInputExt.RefOffset)
+//@   at Encoder.Encode#15 assert item_15_is_txOutputExt_Bucket: $0 == boxed(txOutputExt.Bucket)
+//@   at Encoder.Encode#16 assert item_16_is_txOutputExt_Key: $0 == boxed(txOutputExt.Key)
+//@   at Encoder.Encode#17 assert item_17_is_txOutputExt_Value: $0 == boxed(txOutputExt.Value)
+//@   at Encoder.Encode#18 assert item_18_is_tx_ContractRequests: $0 == boxed(tx.ContractRequests)
+//@   at Encoder.Encode#19 assert item_19_is_tx_Initiator: $0 == boxed(tx.Initiator)
+//@   at Encoder.Encode#20 assert item_20_is_tx_AuthRequire: $0 == boxed(tx.AuthRequire)
+//@   at Encoder.Encode#21 assert item_21_is_tx_InitiatorSigns: $0 == boxed(tx.InitiatorSigns)
+//@   at Encoder.Encode#22 assert item_22_is_tx_AuthRequireSigns: $0 == boxed(tx.AuthRequireSigns)
+//@   at Encoder.Encode#23 assert item_23_is_tx_XuperSign: $0 == boxed(tx.XuperSign)
+//@   at Encoder.Encode#24 assert item_24_is_tx_Coinbase: $0 == boxed(tx.Coinbase)
+//@   at Encoder.Encode#25 assert item_25_is_tx_Autogen: $0 == boxed(tx.Autogen)
+//@   at Encoder.Encode#26 assert item_26_is_tx_HDInfo: $0 == boxed(tx.HDInfo)
+
+// The id hashes the stream WITH the signatures, the signed digest the stream without them;
+// both are functions of the transaction (used as such in the verification contracts).
+//@ func txDigestHashV2
+//@   noverify
+//@   pure
+//@ func MakeTransactionID
+//@   property C08 C07
+//@   pure
+//@   at encodeTxData assert the_id_covers_the_signatures: $0 == tx && $1
+//@   at txDigestHashV2 assert the_id_covers_the_signatures_v3: $0 == tx && $1
+//@ func MakeTxDigestHash
+//@   property C07
+//@   pure
+//@   at encodeTxData assert the_digest_leaves_the_signatures_out: $0 == tx && !$1
+//@   at txDigestHashV2 assert the_digest_leaves_the_signatures_out_v3: $0 == tx && !$1
